@@ -12,7 +12,9 @@
        constructors applied to the raw rows; the row conditions that follow from the sheet ([in_rows_increasing],
        [distinct_row_ids], per-table duplicates, taxable events defined) are DERIVED from [wf_blocks].
     5. SUCCESS: exit 0, exactly the configured reports of the country in discovery order, each within capacity, computed
-       from the transactions [expected] gives for the cells of the sheets. *)
+       from the transactions [expected] gives for the cells of the sheets.  [E2E_success] is stated on the raw rows of the
+       sheets ([built_history]) and excludes crypto-fee acquisitions; Proofs/EndToEndAnyRows.v [E2E_success_any_rows] has the
+       same conclusion for every sheet the parser accepts. *)
 From Coq Require Import List ZArith Bool Lia Permutation Sorted.
 From RP2V Require Import Base.Prelude Base.Time Base.Dec Base.Sorting Base.Assoc Model.Types Model.Generated Model.Txn
   Model.Matcher Model.MatchSpec Model.Pipeline Model.Parser Model.Render Model.TableOrderSpec Model.Computed Model.ComputedSpec
@@ -608,9 +610,10 @@ Qed.
 
 (** ** 5.2 one sheet: what remains a hypothesis about its typed rows
     [h] = the raw rows of the sheet ([sheet_hist]: the typed rows resolved against the configuration).
-      sro_no_fee   no acquisition row carries a crypto fee (GAP: such a row is split by the parser into an acquisition whose fiat
+      sro_no_fee   no acquisition row carries a crypto fee (such a row is split by the parser into an acquisition whose fiat
                    fields are unrounded products plus an artificial fee disposal; that acquisition is not the constructor applied
-                   to any raw row on the 1e-11 grid, so the [hist]-based theory of C16 does not cover it)
+                   to any raw row on the 1e-11 grid, so the [hist]-based theory of C16 does not cover it -- the theorem
+                   [E2E_success_any_rows] of Proofs/EndToEndAnyRows.v does, without a [hist])
       sro_staking  every STAKING acquisition has a positive amount (InTransaction lets others through; the matcher rejects them)
       sro_events   taxable events of one instant lie in one local year (F13) and the schedule has an entry at or before every
                    event year (the two genuine restrictions of C01 / C02)
